@@ -854,10 +854,6 @@ func dateCases(r *hx.Rand) {
 func main() {
 	defer hx.Flush()
 	devnull, _ = os.OpenFile(os.DevNull, os.O_WRONLY, 0)
-	if os.Getenv("VERIF_EXPLORE") != "" {
-		explore()
-		return
-	}
 	r := newR(18)
 	corpusSeries(r)
 	n := hx.N(260, 4000)
